@@ -266,7 +266,7 @@ func parserBounded(p *Prog) *boundedParser {
 						res.tokens = append(res.tokens, fmt.Sprintf("%q: the token %s is %q (contains a blank)", in, where, s))
 					}
 					switch {
-					case tn == "Possibility" && f.Name() == "Name" && s == "":
+					case tn == "Possibility" && f.Name() == "Name" && s == "" && !sub:
 						res.tokens = append(res.tokens, fmt.Sprintf("%q: an alternative with an empty name is stored", in))
 					case tn == "Stage" && f.Name() == "Name" && s == "":
 						res.tokens = append(res.tokens, fmt.Sprintf("%q: a build profile with an empty name is stored", in))
